@@ -190,6 +190,8 @@ pub mod world {
         pub pipe_full_blocks: u64,
         pub flag_ops: u64,
         pub live_threads: i64,
+        /// time of the runner's first `Instant::now()` after the latest spawn
+        pub runner_start: Option<u64>,
     }
 
     pub struct World {
@@ -200,7 +202,8 @@ pub mod world {
 
     ::std::thread_local! {
         static WORLD: RefCell<Option<StdArc<World>>> = const { RefCell::new(None) };
-        static ACTOR: ::std::cell::Cell<u8> = const { ::std::cell::Cell::new(0) };
+        // shuttle tasks are coroutines on one OS thread: keyed by task id, not by thread
+        static ACTORS: RefCell<Vec<u8>> = const { RefCell::new(Vec::new()) };
     }
 
     pub fn new(cfg: Config) -> StdArc<World> {
@@ -214,6 +217,7 @@ pub mod world {
     }
     pub fn install(w: StdArc<World>) {
         WORLD.with(|c| *c.borrow_mut() = Some(w));
+        ACTORS.with(|a| a.borrow_mut().clear());
     }
     pub fn uninstall() {
         WORLD.with(|c| *c.borrow_mut() = None);
@@ -325,6 +329,9 @@ pub mod world {
         let w = get();
         let mut st = lock(&w);
         let n = st.now_ms;
+        if who == actor::RUNNER && st.runner_start.is_none() {
+            st.runner_start = Some(n);
+        }
         st.ev(who, op::NOW, n, 0);
         n
     }
@@ -341,10 +348,18 @@ pub mod world {
     // ---------------------------------------------------------------- actors
 
     pub fn set_actor(a: u8) {
-        ACTOR.with(|c| c.set(a));
+        let me = usize::from(::shuttle::current::me());
+        ACTORS.with(|c| {
+            let mut v = c.borrow_mut();
+            if v.len() <= me {
+                v.resize(me + 1, 0);
+            }
+            v[me] = a;
+        });
     }
     pub fn current_actor() -> u8 {
-        ACTOR.with(::std::cell::Cell::get)
+        let me = usize::from(::shuttle::current::me());
+        ACTORS.with(|c| c.borrow().get(me).copied().unwrap_or(0))
     }
 
     // ---------------------------------------------------------------- child
@@ -663,6 +678,7 @@ pub mod world {
                 read_after_drop: false,
                 kill_before_spawn: false,
             });
+            st.runner_start = None;
             st.ev(actor::RUNNER, op::SPAWN, pid as u64, 0);
         }
         ::shuttle::thread::spawn(move || {
